@@ -324,6 +324,9 @@ func parentMain(prop *Property, tier string, seed int64, verifDir string, nworke
 	var findings []Finding
 	bounds := map[string]any{}
 	for _, r := range results {
+		if os.Getenv("VERIF_TIMES") != "" {
+			fmt.Printf("  %6.1fs %9d executions  %s\n", r.WallS, r.Evals, r.Scenario)
+		}
 		evals += r.Evals
 		nontriv += r.Nontrivial
 		states += r.States
